@@ -46,8 +46,8 @@ var c05FinalCLTVTerms = []string{"field:DecodedBolt11.MinFinalCltvExpiry", "lnrp
 func init() {
 	Register(&Prop{
 		ID:   "C05",
-		Expl: "Decides the worst case of the Bitcoin timelock arithmetic as a constant expression extracted from the guards of the pinned tree: (R1) CSV = the constant the taker's own validator puts into the opening script it accepts; the constant GetCSVHeight of every type wired as SwapServices.bitcoinValidator in the two mains; Fmax = the largest invoice final CLTV that passes the comparison dominating the confirmation-watch registration on the Bitcoin branch; Wmax = the largest now-start that passes the comparison dominating the claim-payment call on the Bitcoin branch, on the first and on every later attempt, with `now` read in the same attempt; R = per back-end, the constant added to the invoice's final CLTV in the CLTV value placed into the outgoing route/request on the unlimited (limit == 0, i.e. Bitcoin) path. (R2) Wmax + Fmax + R < CSV for every back-end — the latest block at which the HTLC can still be settled (start+Wmax+Fmax+R, taking the most favourable admissible confirmation height conf = start) is strictly below the first block in which a CSV refund can confirm (conf+CSV). The extracted constants are part of the construct, so any change of any of them is a different obligation. (R3) The anchor those windows are measured from is set once: in every action that a taker table runs in a state Recover re-executes (not FailOnrecover), every store to SwapData.StartingBlockHeight is dominated by StartingBlockHeight == 0 or is unreachable for a Bitcoin swap — otherwise each restart moves all Bitcoin windows forward while the maker's CSV keeps running from the confirmation. Predicate helpers (one bool result, one return) are instantiated with their arguments, payment / registration calls inside small helpers are judged at the helper's call site, constants are folded through + - * / % << >>.",
-		NotD: "Actual heights at run time; whether the opening transaction confirmed at or after StartingBlockHeight (no confirmation height ever reaches package swap, so R2 is evaluated for the most favourable case conf = start; an earlier confirmation only makes the violation larger); lnd/CLN internals (how cltv_limit / route delay are applied); reorganisations.",
+		Expl: "Decides the worst case of the Bitcoin timelock arithmetic as a constant expression extracted from the guards of the pinned tree: (R1) CSV = the constant the taker's own validator puts into the opening script it accepts; the constant GetCSVHeight of every type wired as SwapServices.bitcoinValidator in the two mains; Fmax = the largest invoice final CLTV that passes the comparison dominating the confirmation-watch registration on the Bitcoin branch; Wmax = the largest now-start that passes the comparison dominating the claim-payment call on the Bitcoin branch, on the first and on every later attempt, with `now` read in the same attempt; R = per back-end, the constant added to the invoice's final CLTV in the CLTV value placed into the outgoing route/request on the unlimited (limit == 0, i.e. Bitcoin) path. (R2) Wmax + Fmax + R < CSV for every back-end — the latest block at which the HTLC can still be settled (start+Wmax+Fmax+R, taking the most favourable admissible confirmation height conf = start) is strictly below the first block in which a CSV refund can confirm (conf+CSV). The extracted constants are part of the construct, so any change of any of them is a different obligation. (R3) The anchor those windows are measured from is set once: in every action that a taker table runs in a state Recover re-executes (not FailOnrecover), every store to SwapData.StartingBlockHeight is dominated by StartingBlockHeight == 0 or is unreachable for a Bitcoin swap — otherwise each restart moves all Bitcoin windows forward while the maker's CSV keeps running from the confirmation. (R4) With LND the watcher's depth refusal is the only comparison anywhere in the taker path that sees the height H at which the opening transaction confirmed: every positive confirmation report of the lnd implementation of swap.TxWatcher (dynamic call through the field AddConfirmationCallback stores, nil error) is dominated by an inequality over exactly {tip, H} at least as strong as tip - H + 1 < onchain.BitcoinCsvSafetyLimit, the limit being CSV/2 of the validated script, tip read by the watcher's own GetBlockHeight and H traced to chainrpc ConfDetails.BlockHeight through the event struct field — a phi, min/max, overwritten local or parameter that brings in any other source (the height hint, a constant, the tip) is a violation, an untraceable H is undecided. Predicate helpers (one bool result, one return) are instantiated with their arguments, payment / registration calls inside small helpers are judged at the helper's call site, constants are folded through + - * / % << >>.",
+		NotD: "Actual heights at run time; whether the opening transaction confirmed at or after StartingBlockHeight (no confirmation height ever reaches package swap, so R2 is evaluated for the most favourable case conf = start; an earlier confirmation only makes the violation larger); lnd/CLN internals (how cltv_limit / route delay are applied); reorganisations; that lnd's confirmation notification reports the true block height; whether the depth tip - H + 1 is formed in signed arithmetic (an unsigned wrap only turns a positive verdict into a refusal, the safe direction; C20.R1 judges the same test for the watcher property); C05.R4 is claimed for the LND watcher only — the RPC and Electrum watchers relate the confirmation to the registered start through their own first-seen / window tests (C20).",
 		Run:  runC05,
 	})
 }
@@ -304,6 +304,24 @@ func (e *c05Env) linearB(v ssa.Value, bind c05Bind) c05Lin {
 		}
 		if depth < 12 {
 			switch x := v.(type) {
+			case *ssa.Call:
+				// an in-module arithmetic helper with one integer result and one return
+				if g := x.Call.StaticCallee(); g != nil && !x.Call.IsInvoke() && w.InModule(g) && g.Blocks != nil && len(g.Params) == len(x.Call.Args) && g.Signature.Results().Len() == 1 && c05IsInt(g.Signature.Results().At(0).Type()) {
+					if rets := an.Returns(g); len(rets) == 1 && len(g.Blocks) == 1 {
+						nb := c05Bind{}
+						for k, bv := range bind {
+							nb[k] = bv
+						}
+						for i, p := range g.Params {
+							nb[p] = bind.resolve(x.Call.Args[i])
+						}
+						saved := bind
+						bind = nb
+						rec(rets[0].Results[0], sign, depth+1)
+						bind = saved
+						return
+					}
+				}
 			case *ssa.Convert:
 				if c05IsInt(x.Type()) && c05IsInt(x.X.Type()) {
 					rec(x.X, sign, depth+1)
@@ -686,6 +704,7 @@ func c05Impls(w *an.World, rel, iface, method string) []*ssa.Function {
 func runC05(c *an.Check) {
 	c.Rule("C05.R1", "extract from the guards: script CSV, validator CSV (wiring), Fmax (largest accepted invoice final CLTV), Wmax (largest accepted now-start at every payment attempt), route delay R per back-end on the unlimited path")
 	c.Rule("C05.R2", "Wmax + Fmax + R < CSV for every back-end (construct carries the extracted constants)")
+	c.Rule("C05.R4", "LND: every positive confirmation report (callback with nil error) is dominated by tip - H + 1 < onchain.BitcoinCsvSafetyLimit (= CSV/2), where H is the confirmation event's own block height (chainrpc ConfDetails.BlockHeight through the event struct) and nothing else")
 	c.Rule("C05.R3", "the anchor all Bitcoin windows are measured from is set once: in every action a taker table runs in a state that Recover re-executes (not FailOnrecover), every store to SwapData.StartingBlockHeight is dominated by StartingBlockHeight == 0 or is unreachable for a Bitcoin swap")
 	if !needEffects(c, fxPay, fxWaitConf, fxBlockHeight, fxDecodePayreq) {
 		return
@@ -721,6 +740,7 @@ func runC05(c *an.Check) {
 	}
 	c05R3(c, env)
 	csvScript, okScript := c05ScriptCSV(c)
+	c05R4(c, env, csvScript, okScript)
 	c05ValidatorCSV(c, env)
 	limitOK := c05BitcoinLimit(c, env)
 	wmax, okW := c05Wmax(c, env)
@@ -890,6 +910,481 @@ func c05R3(c *an.Check, env *c05Env) {
 		}
 	}
 	c.AtLeast("C05.R3", "recoverable taker states whose action writes StartingBlockHeight", nStates, 2)
+}
+
+// ---- R4: the only guard that sees the confirmation height (LND) -------------------------------
+
+// c05R4. With the LND back-end the confirmation watcher's depth test
+//
+//	tip - H + 1 < onchain.BitcoinCsvSafetyLimit
+//
+// is the only comparison in the whole taker path that involves the height H at
+// which the opening transaction confirmed (package swap never sees it, see
+// R2's note). It is what keeps "pay height + route CLTV" related to "H + CSV"
+// when the transaction confirmed long before the taker's start. The rule finds
+// the positive reports structurally (dynamic call through the field that
+// AddConfirmationCallback of the lnd implementation of swap.TxWatcher stores,
+// error argument nil), and requires a dominating inequality over exactly
+// {tip, H}: tip read by the watcher's own GetBlockHeight, H the event's own
+// height and nothing merged into it.
+func c05R4(c *an.Check, env *c05Env, csv int64, csvOK bool) {
+	w := c.W
+	// the lnd implementation of swap.TxWatcher
+	var watcher *types.Named
+	twI := w.Named("swap", "TxWatcher")
+	if twI == nil {
+		c.Anchor("swap.TxWatcher does not resolve")
+		return
+	}
+	it, _ := twI.Underlying().(*types.Interface)
+	if pkg := w.ByRel["lnd"]; pkg != nil && it != nil {
+		sc := pkg.Types.Scope()
+		for _, name := range sc.Names() {
+			tn, ok := sc.Lookup(name).(*types.TypeName)
+			if !ok || tn.IsAlias() {
+				continue
+			}
+			n, ok := tn.Type().(*types.Named)
+			if !ok || types.IsInterface(n) {
+				continue
+			}
+			if types.Implements(types.NewPointer(n), it) || types.Implements(n, it) {
+				watcher = n
+			}
+		}
+	}
+	if watcher == nil {
+		c.Anchor("package lnd has no implementation of swap.TxWatcher")
+		return
+	}
+	reg := w.Method(watcher, "AddConfirmationCallback")
+	tipFn := w.Method(watcher, "GetBlockHeight")
+	if reg == nil || reg.Blocks == nil || tipFn == nil {
+		c.Anchor("lnd %s: AddConfirmationCallback / GetBlockHeight do not resolve", watcher.Obj().Name())
+		return
+	}
+	// the field the callback is kept in
+	cbField := ""
+	for _, b := range reg.Blocks {
+		for _, in := range b.Instrs {
+			st, ok := in.(*ssa.Store)
+			if !ok {
+				continue
+			}
+			fa, isFA := st.Addr.(*ssa.FieldAddr)
+			if _, isParam := st.Val.(*ssa.Parameter); isFA && isParam {
+				cbField = an.FieldName(fa.X.Type(), fa.Field)
+			}
+		}
+	}
+	if cbField == "" {
+		c.Anchor("lnd AddConfirmationCallback does not store its parameter into a field: the report sites cannot be found")
+		return
+	}
+	// the safety limit constant
+	limit, haveLimit := int64(0), false
+	if op := w.ByRel["onchain"]; op != nil {
+		if co, ok := op.Types.Scope().Lookup("BitcoinCsvSafetyLimit").(*types.Const); ok {
+			if v, exact := constantInt64(co); exact {
+				limit, haveLimit = v, true
+			}
+		}
+	}
+	if !haveLimit {
+		c.Anchor("constant onchain.BitcoinCsvSafetyLimit does not resolve")
+		return
+	}
+	if csvOK {
+		c.Decide(limit*2 == csv || limit == csv/2, "C05.R4", "onchain.BitcoinCsvSafetyLimit", "-",
+			fmt.Sprintf("BitcoinCsvSafetyLimit = %d = CSV/2 (CSV = %d from the validated script)", limit, csv),
+			fmt.Sprintf("onchain.BitcoinCsvSafetyLimit = %d is not half of the CSV of the validated script (%d): the watcher's depth refusal no longer matches the window arithmetic of R2", limit, csv))
+	} else {
+		c.Unknown("C05.R4", "onchain.BitcoinCsvSafetyLimit", "-", "the script CSV could not be extracted (C05.R1), the safety limit cannot be tied to it")
+	}
+
+	// positive report sites
+	nSites := 0
+	for _, fn := range prodFuncs(w) {
+		if w.FnRel(fn) != "lnd" {
+			continue
+		}
+		for _, call := range an.Calls(fn) {
+			ci := w.Info(call)
+			if ci.Name != "dyn:"+cbField || ci.IsGo || ci.IsDefer {
+				continue
+			}
+			args := call.Common().Args
+			if len(args) == 0 || !an.IsErrorType(args[len(args)-1].Type()) {
+				continue
+			}
+			if !an.IsNilConst(args[len(args)-1]) {
+				if _, isConstErr := args[len(args)-1].(*ssa.Const); isConstErr {
+					continue
+				}
+				// a non-constant error: certainly non-nil only for fresh error values
+				if c05FreshError(w, args[len(args)-1]) {
+					continue
+				}
+			}
+			nSites++
+			c05R4Site(c, env, fn, call, tipFn, limit, an.IsNilConst(args[len(args)-1]))
+		}
+	}
+	c.AtLeast("C05.R4", "positive confirmation reports in package lnd", nSites, 1)
+}
+
+func constantInt64(co *types.Const) (int64, bool) {
+	v := co.Val()
+	if v == nil {
+		return 0, false
+	}
+	s := v.ExactString()
+	var n int64
+	if _, err := fmt.Sscanf(s, "%d", &n); err != nil {
+		return 0, false
+	}
+	return n, true
+}
+
+// c05FreshError: v is certainly a non-nil error (fmt.Errorf / errors.New / a concrete error value).
+func c05FreshError(w *an.World, v ssa.Value) bool {
+	switch x := v.(type) {
+	case *ssa.MakeInterface:
+		return true
+	case *ssa.Call:
+		switch w.Info(x).Name {
+		case "func:fmt.Errorf", "func:errors.New":
+			return true
+		}
+	}
+	return false
+}
+
+// c05EventHeight classifies a value that is used as the confirmation height:
+// "event" = the confirmation event's own block height (a field whose every
+// production writer stores chainrpc ConfDetails.BlockHeight, or that field
+// itself); "foreign" = positively something else, or something else merged in
+// (phi / min / max / overwritten local); "?" = not traceable.
+func c05EventHeight(w *an.World, v ssa.Value, depth int) (kind, what string) {
+	if depth > 6 {
+		return "?", "too deep"
+	}
+	isConf := func(t string) bool { return strings.HasSuffix(t, "ConfDetails.BlockHeight") }
+	switch x := v.(type) {
+	case *ssa.Convert:
+		return c05EventHeight(w, x.X, depth+1)
+	case *ssa.ChangeType:
+		return c05EventHeight(w, x.X, depth+1)
+	case *ssa.Const:
+		return "foreign", "the constant " + w.Term(x)
+	case *ssa.Parameter:
+		// a helper parameter: what the callers pass; an entry point's parameter
+		// (no static caller) is positively not the event's height
+		fn := x.Parent()
+		idx := -1
+		for i, p := range fn.Params {
+			if p == x {
+				idx = i
+			}
+		}
+		var sites []ssa.CallInstruction
+		if fn.Parent() == nil {
+			sites = findCallSites(w, "func:"+w.FuncName(fn))
+		}
+		if len(sites) == 0 || idx < 0 {
+			return "foreign", "parameter " + x.Name() + " of " + w.FuncName(fn) + " (handed in from outside, e.g. the height hint), not the event's height"
+		}
+		worst, desc := "event", "what every caller passes is the event's height"
+		for _, cs := range sites {
+			if idx >= len(cs.Common().Args) {
+				return "?", "a caller with a different argument list"
+			}
+			k, d := c05EventHeight(w, cs.Common().Args[idx], depth+1)
+			if k == "foreign" || (k == "?" && worst == "event") {
+				worst, desc = k, d+" (passed at "+w.Pos(cs.Pos())+")"
+			}
+		}
+		return worst, desc
+	case *ssa.FreeVar:
+		if b := c05FreeVarBinding(x); b != nil {
+			return c05EventHeight(w, b, depth+1)
+		}
+		return "?", "a captured variable that cannot be resolved"
+	case *ssa.Phi:
+		var kinds []string
+		worst := "event"
+		for _, e := range x.Edges {
+			k, d := c05EventHeight(w, e, depth+1)
+			kinds = append(kinds, k+": "+d)
+			if k == "foreign" || (k == "?" && worst == "event") {
+				worst = k
+			}
+		}
+		if worst == "event" {
+			return "event", "all alternatives are the event's height"
+		}
+		return worst, "a value selected among [" + strings.Join(kinds, " | ") + "]"
+	case *ssa.Call:
+		ci := w.Info(x)
+		if ci.Name == "builtin:max" || ci.Name == "builtin:min" {
+			var kinds []string
+			worst := "event"
+			for _, a := range x.Call.Args {
+				k, d := c05EventHeight(w, a, depth+1)
+				kinds = append(kinds, k+": "+d)
+				if k == "foreign" || (k == "?" && worst == "event") {
+					worst = k
+				}
+			}
+			if worst == "event" {
+				return "event", "min/max of the event's height only"
+			}
+			return worst, strings.TrimPrefix(ci.Name, "builtin:") + " of [" + strings.Join(kinds, " | ") + "]"
+		}
+		if strings.Contains(ci.Name, "GetBlockHeight") {
+			return "foreign", "the chain tip (" + ci.Name + "), not the event's height"
+		}
+		return "?", "the result of " + ci.Name
+	case *ssa.Extract:
+		if call, ok := x.Tuple.(*ssa.Call); ok {
+			if strings.Contains(w.Info(call).Name, "GetBlockHeight") {
+				return "foreign", "the chain tip, not the event's height"
+			}
+			return "?", "a result of " + w.Info(call).Name
+		}
+		return "?", w.Term(v)
+	case *ssa.Field:
+		key := an.FieldName(x.X.Type(), x.Field)
+		return c05EventField(w, key, x.X, depth)
+	case *ssa.UnOp:
+		if x.Op != token.MUL {
+			return "?", w.Term(v)
+		}
+		switch a := x.X.(type) {
+		case *ssa.FieldAddr:
+			key := an.FieldName(a.X.Type(), a.Field)
+			if isConf(key) {
+				return "event", "chainrpc ConfDetails.BlockHeight"
+			}
+			// a field of a local struct that is overwritten in this function
+			if al, ok := a.X.(*ssa.Alloc); ok && al.Referrers() != nil {
+				for _, r := range *al.Referrers() {
+					fa, isFA := r.(*ssa.FieldAddr)
+					if !isFA || fa.Field != a.Field || fa.Referrers() == nil {
+						continue
+					}
+					for _, rr := range *fa.Referrers() {
+						if st, isSt := rr.(*ssa.Store); isSt && st.Addr == fa {
+							k, d := c05EventHeight(w, st.Val, depth+1)
+							if k != "event" {
+								return k, "the local event's height field is overwritten with " + d
+							}
+						}
+					}
+				}
+			}
+			return c05EventField(w, key, a.X, depth)
+		case *ssa.FreeVar:
+			// a captured variable (by reference): what the enclosing function stores in it
+			if b, ok := c05FreeVarBinding(a).(*ssa.Alloc); ok {
+				worst, desc := "event", "a captured variable holding the event's height"
+				n := 0
+				if b.Referrers() != nil {
+					for _, r := range *b.Referrers() {
+						if st, ok := r.(*ssa.Store); ok && st.Addr == b {
+							n++
+							k, d := c05EventHeight(w, st.Val, depth+1)
+							if k == "foreign" || (k == "?" && worst == "event") {
+								worst, desc = k, "the captured variable "+a.Name()+" = "+d
+							}
+						}
+					}
+				}
+				if n > 0 {
+					return worst, desc
+				}
+			}
+			return "?", "a captured variable that cannot be resolved"
+		case *ssa.Alloc:
+			// a local variable: all stores
+			worst, desc := "event", ""
+			n := 0
+			if a.Referrers() != nil {
+				for _, r := range *a.Referrers() {
+					if st, ok := r.(*ssa.Store); ok && st.Addr == a {
+						n++
+						k, d := c05EventHeight(w, st.Val, depth+1)
+						if k == "foreign" || (k == "?" && worst == "event") {
+							worst, desc = k, d
+						}
+					}
+				}
+			}
+			if n == 0 {
+				return "?", "a local that is never assigned"
+			}
+			if worst == "event" {
+				return "event", "a local holding the event's height"
+			}
+			return worst, "a local that may hold " + desc
+		}
+	}
+	return "?", w.Term(v)
+}
+
+// c05FreeVarBinding returns the value bound to a closure's free variable at
+// the (single) MakeClosure of that closure.
+func c05FreeVarBinding(fv *ssa.FreeVar) ssa.Value {
+	fn := fv.Parent()
+	par := fn.Parent()
+	if par == nil {
+		return nil
+	}
+	idx := -1
+	for i, v := range fn.FreeVars {
+		if v == fv {
+			idx = i
+		}
+	}
+	var found ssa.Value
+	for _, b := range par.Blocks {
+		for _, in := range b.Instrs {
+			if mc, ok := in.(*ssa.MakeClosure); ok && mc.Fn == fn && idx >= 0 && idx < len(mc.Bindings) {
+				if found != nil && found != mc.Bindings[idx] {
+					return nil
+				}
+				found = mc.Bindings[idx]
+			}
+		}
+	}
+	return found
+}
+
+// c05EventField: key is a struct field used as the height; it is the event's
+// height when every production writer of that field stores ConfDetails.BlockHeight.
+func c05EventField(w *an.World, key string, base ssa.Value, depth int) (string, string) {
+	if strings.HasSuffix(key, "ConfDetails.BlockHeight") {
+		return "event", "chainrpc ConfDetails.BlockHeight"
+	}
+	ws := w.FieldWriters(key)
+	n := 0
+	for _, st := range ws {
+		if an.IsTestSupport(w.FnRel(st.Parent())) {
+			continue
+		}
+		n++
+		t := w.Term(st.Val)
+		if !strings.HasSuffix(t, "ConfDetails.BlockHeight") {
+			k, d := c05EventHeight(w, st.Val, depth+1)
+			if k != "event" {
+				return k, "field " + key + ", which is written with " + d + " at " + w.Pos(st.Pos())
+			}
+		}
+	}
+	if n == 0 {
+		return "?", "field " + key + " has no production writer"
+	}
+	return "event", "field " + key + " (written only with chainrpc ConfDetails.BlockHeight)"
+}
+
+func c05R4Site(c *an.Check, env *c05Env, fn *ssa.Function, call ssa.CallInstruction, tipFn *ssa.Function, limit int64, certainlyNil bool) {
+	w := c.W
+	cons := "positive confirmation report in " + w.FuncName(fn)
+	pos := w.Pos(call.Pos())
+	at := env.atoms(fn)
+	isTip := func(v ssa.Value) bool {
+		cl := c05CallOf(v)
+		return cl != nil && cl.Call.StaticCallee() == tipFn
+	}
+	type cand struct {
+		iq    c05Ineq
+		bound int64
+		h     ssa.Value
+	}
+	var cands []cand
+	var other []string
+	for _, iq := range at.ineqs {
+		if !an.EdgeDominates(iq.Edge, call.Block()) {
+			continue
+		}
+		var tipK, hK string
+		for k, co := range iq.L.T {
+			switch {
+			case co == -1 && isTip(iq.L.Leaf[k]):
+				tipK = k
+			case co == 1:
+				hK = k
+			}
+		}
+		if tipK == "" {
+			continue
+		}
+		if len(iq.L.T) != 2 || hK == "" {
+			other = append(other, fmt.Sprintf("%s %s 0 at %s", iq.L.String(), iq.Rel, w.Pos(iq.Pos)))
+			continue
+		}
+		b := iq.L.C
+		if iq.Rel == ">" {
+			b--
+		}
+		cands = append(cands, cand{iq: iq, bound: b, h: iq.L.Leaf[hK]})
+	}
+	if len(cands) == 0 {
+		var helpers []string
+		for _, iq := range at.ineqs {
+			if !an.EdgeDominates(iq.Edge, call.Block()) {
+				continue
+			}
+			for _, lv := range iq.L.Leaf {
+				if cl := c05CallOf(lv); cl != nil {
+					if g := cl.Call.StaticCallee(); g != nil && g != tipFn && w.InModule(g) {
+						helpers = append(helpers, w.FuncName(g))
+					}
+				}
+			}
+		}
+		switch {
+		case len(helpers) > 0:
+			c.Unknown("C05.R4", cons, pos, "the report is dominated by a comparison on the result of "+strings.Join(helpers, ", ")+", a helper this rule cannot evaluate: the depth test may be computed there")
+		case len(other) > 0:
+			c.Unknown("C05.R4", cons, pos, "the report is dominated by comparisons involving the chain tip, but none has the form tip - H <= K over exactly {tip, H}: "+strings.Join(other, " | "))
+		case len(at.opaque) > 0:
+			c.Unknown("C05.R4", cons, pos, "no depth test is visible, but the function branches on "+strings.Join(at.opaque, ", ")+", which this rule cannot look into")
+		case len(findCallSites(w, "func:"+w.FuncName(fn))) > 0:
+			c.Unknown("C05.R4", cons, pos, "no depth test dominates the report inside "+w.FuncName(fn)+"; the function has callers where the test may sit: unsupported shape")
+		case !certainlyNil:
+			c.Unknown("C05.R4", cons, pos, "a report whose error argument may be nil is not dominated by a depth test, and this rule cannot tell whether the error is nil here")
+		default:
+			c.Bad("C05.R4", cons, pos, "a confirmation is reported to the swap (nil error) without any dominating test  tip - confirmationHeight + 1 < BitcoinCsvSafetyLimit: with LND this is the only guard that relates the payment to the height at which the opening transaction confirmed, so a transaction that confirmed long before the taker's start is paid for although pay height + route CLTV exceeds confirmation height + CSV")
+		}
+		return
+	}
+	// the best candidate: event height, tightest bound
+	want := limit - 2 // tip - H + 1 < limit  <=>  tip - H <= limit-2
+	var foreign, unknown, weak []string
+	for _, cd := range cands {
+		kind, what := c05EventHeight(w, cd.h, 0)
+		form := fmt.Sprintf("%s %s 0 at %s", cd.iq.L.String(), cd.iq.Rel, w.Pos(cd.iq.Pos))
+		switch {
+		case kind == "event" && cd.bound <= want:
+			c.OK("C05.R4", cons, pos, fmt.Sprintf("dominated by %s, i.e. tip - H <= %d (limit %d), H = %s", form, cd.bound, limit, what))
+			return
+		case kind == "event":
+			weak = append(weak, fmt.Sprintf("%s gives tip - H <= %d, weaker than tip - H + 1 < %d", form, cd.bound, limit))
+		case kind == "foreign":
+			foreign = append(foreign, fmt.Sprintf("%s: the height it subtracts is %s", form, what))
+		default:
+			unknown = append(unknown, fmt.Sprintf("%s: cannot trace the subtracted height (%s)", form, what))
+		}
+	}
+	switch {
+	case len(unknown) > 0:
+		c.Unknown("C05.R4", cons, pos, strings.Join(unknown, " | "))
+	case len(foreign) > 0:
+		c.Bad("C05.R4", cons, pos, "the depth test that guards the positive report is not computed from the confirmation event's own block height: "+strings.Join(foreign, " | ")+". A confirmation far below the merged-in value looks shallow, passes the BitcoinCsvSafetyLimit refusal and is paid for although pay height + route CLTV exceeds confirmation height + CSV (this test is the only guard that sees the confirmation height, cf. C05.R2)")
+	default:
+		c.Bad("C05.R4", cons, pos, "the depth test that guards the positive report is weaker than tip - H + 1 < onchain.BitcoinCsvSafetyLimit: "+strings.Join(weak, " | "))
+	}
 }
 
 // c05ScriptCSV: the CSV the taker's Bitcoin validator requires in the script it accepts.
